@@ -182,7 +182,7 @@ func (l *lazyNetConn) SetWriteDeadline(time.Time) error { return nil }
 func main() {
 	explore.Main("C11", func(r *explore.Run) {
 		var pairs []pair
-		for _, cp := range [][]string{nil, {"a"}, {"a", "b"}, {"b", "a"}} {
+		for _, cp := range [][]string{nil, {"a"}, {"a", "b"}, {"b", "a"}, {"A", "a"}} { // the last: two names that differ only in case
 			for _, sp := range []string{"nil", "a", "b", "all"} {
 				for _, ce := range []string{"none", "pmd", "pmd-cmwb", "pmd-smwb10+pmd", "x"} {
 					for _, se := range []string{"none", "flate0", "flate1", "flate2", "accept-all"} {
